@@ -57,6 +57,11 @@ impl Profile {
 
     pub fn for_id(id: &str, thorough: bool) -> Profile {
         let mut p = Profile::base(thorough);
+        // ordering / arity of several top-level messages is C01's (and exercised by C19); elsewhere
+        // execute_multi carries one message, so that an ordering defect is not blamed on others
+        if id != "C01" && id != "C19" {
+            p.multi_w = 0;
+        }
         match id {
             "C01" => {
                 p.multi_w = 8;
